@@ -1055,3 +1055,12 @@ func DumpStores(c *world.Chain) map[string]map[string]string { return dumpAll(c)
 
 // DiffStores lists differing keys.
 func DiffStores(a, b map[string]map[string]string) []string { return diffAll(a, b) }
+
+// EmittedPackets returns the packet bytes the packet contract emitted for every send of the ledger.
+func (s *Sys) EmittedPackets() [][]byte {
+	var out [][]byte
+	for _, t := range s.tr {
+		out = append(out, t.Bytes)
+	}
+	return out
+}
